@@ -73,8 +73,7 @@ class C07(HistoryProperty):
             focus["abstract"] = True
         if rng.random() < 0.4:
             focus["callback"] = True
-        if rng.random() < 0.4:
-            focus["cache"] = "nocache"
+        focus["cache"] = "nocache" if rng.random() < 0.4 else "recording"
         if rng.random() < 0.25:
             focus["options"] = g.preset()
         if rng.random() < 0.2:
@@ -156,8 +155,9 @@ class C07(HistoryProperty):
             evaluated = True
             res.bump("ops")
             o = op["o"]
+            backend = w.prog.caches.get(fid)
+            n_lookups = len(backend.lookups) if backend is not None else 0
             out = w.do(op)
-            fp = w.do(dict(op, op="fingerprint"))
             # ---- expectation
             eff = U.overlay(U.overlay(F.get("default_options") or {}, o), F.get("options") or {})
             t = World(tspec, record=False)
@@ -188,15 +188,18 @@ class C07(HistoryProperty):
                 val = ("cb", F["name"], freeze(val))
             want = crepr(val) if expect_ok else None
             acceptable = [("ok", want)] if expect_ok else [("fail", None)]
-            if fp.ok and fp.value in stored:
-                acceptable.append(("ok", stored[fp.value]))  # already stored: same fingerprint as an earlier successful call
+            if backend is not None:
+                # "not already stored": a value stored earlier under a cache key this evaluation looked up (the keys are
+                # observed at the storage seam: they are computed under the mixed options, inside the pre-set wrappers)
+                looked_up = set(backend.lookups[n_lookups:])
+                for key, value in backend.sets:
+                    if key in looked_up and ("ok", crepr(value)) not in acceptable:
+                        acceptable.append(("ok", crepr(value)))
             got = ("ok", out.value) if out.ok else ("fail", None)
             if got not in acceptable:
                 res.violate("wrong-implementation-selected", op_index=i, node=fid, o=o, effective=eff, dispatch_value=crepr(dv) if ok else "<failed>",
                             model_picks=which, table=sorted(crepr(k) for k in table), got=out.brief(), acceptable=acceptable)
                 return w
-            if out.ok and fp.ok and F.get("cache") != "nocache":
-                stored.setdefault(fp.value, out.value)
         if nontrivial:
             res.seen("history_register_after_eval", (spec, case["ops"]))
         return w
